@@ -1,3 +1,4 @@
+pub mod c01;
 pub mod c02;
 pub mod c03;
 pub mod c04;
@@ -25,6 +26,7 @@ use crate::engine::PropertySpec;
 
 pub fn spec(id: &str) -> Option<PropertySpec> {
     Some(match id {
+        "C01" => c01::spec(),
         "C02" => c02::spec(),
         "C03" => c03::spec(),
         "C04" => c04::spec(),
